@@ -85,6 +85,20 @@ def variants(f, limit):
             return
 
 
+def variants_any(f, limit):
+    """like variants(), but any named sub-formula counts (also stateless ones such as a predicate used twice)"""
+    seen = set()
+    for defs, top in M.decompositions(f, limit=None):
+        subs, text = M.texts(defs, top)
+        k = (tuple(subs), text)
+        if k in seen:
+            continue
+        seen.add(k)
+        yield subs, text, defs, top
+        if len(seen) >= limit:
+            return
+
+
 def shards(tier):
     past, fut = base_formulas(tier)
     limit = 6 if tier == 'quick' else 40
